@@ -7,7 +7,7 @@ import (
 	"gonum.org/v1/gonum/blas/blas64"
 	"gonum.org/v1/gonum/lapack/lapack64"
 
-	"verif/harness/internal/core"
+	"gonum.org/v1/gonum/verifharness/internal/core"
 )
 
 func init() { families["qr"] = qrFamily }
@@ -91,7 +91,7 @@ func qrFamily(c *inst, raw json.RawMessage, full bool, sum *core.Summary) {
 		if kk >= 2 {
 			sum.Nontrivial++
 		}
-		if kk > 128 {
+		if kk > 128 || forcedNB > 0 && forcedNB < kk {
 			sum.Count("calls_on_blocked_sizes", 1)
 		}
 	}
